@@ -38,7 +38,7 @@ def run(tier):
         o = byid[rid]
         V.disagree(proto.failure_key(o), {"observation": o, "case": next(c for c in cases if c["id"] == rid)})
     # 3. binding self-test: a corrupted trace must be rejected
-    selftest(lines)
+    selftest(lines, set(rejected))
     rc = V.finish()
     shapes = {}
     for o in obs:
@@ -64,20 +64,22 @@ def run(tier):
     return rc
 
 
-def selftest(lines):
+def selftest(lines, rejected=frozenset()):
     """Corrupt one recorded field / drop one event: the trace spec must reject exactly that case."""
     import copy
-    # pick the first case with >= 4 events and a report
+    # pick the first ACCEPTED case with >= 6 events
     start = None
     for i, ln in enumerate(lines):
-        if ln["e"] == "call":
+        if ln["e"] == "call" and (i == 0 or lines[i - 1]["e"] == "end"):
             start = i
         if ln["e"] == "end" and start is not None:
             seg = lines[start:i + 1]
-            if sum(1 for x in seg if x["e"] == "ev") >= 6:
+            if ln["id"] not in rejected and sum(1 for x in seg if x["e"] == "ev") >= 6:
                 break
             start = None
     else:
+        if rejected:
+            return      # every candidate is itself rejected: the verdict stands without the self-test
         raise vlib.Infra("selftest: no case with events found")
     seg = copy.deepcopy(seg)
     variants = []
